@@ -173,7 +173,7 @@ func c09Body(lib *ast.KnowledgeLibrary, tid int, obs *c09Obs, yield func(string)
 }
 
 func (o c09Obs) String() string {
-	return fmt.Sprintf("%s | err=%s insterr=%s | %s", strings.Join(o.Events, " "), o.Err, o.InstErr, o.Final)
+	return fmt.Sprintf("%s | err=%s insterr=%s | %s", hx.Evs(o.Events), o.Err, o.InstErr, o.Final)
 }
 
 var c09Coarse = map[string]bool{"ast.KnowledgeBase.Clone": true, "ast.WorkingMemory.Clone": true, "ast.RuleEntry.Clone": true, "ast.RuleEntry.Evaluate": true, "ast.RuleEntry.Execute": true,
@@ -438,6 +438,16 @@ func C09Corpus(args []string) {
 		if bud.Over() {
 			return
 		}
+		if !hx.OrderLive() {
+			// without order control two runs of one program may break salience ties differently
+			sals := map[int64]bool{}
+			for _, r := range p.Rules {
+				if sals[salOf(r)] {
+					return
+				}
+				sals[salOf(r)] = true
+			}
+		}
 		b, err := hx.Build(p)
 		if err != nil {
 			report("harness:build-failed:"+id, err.Error(), id)
@@ -476,7 +486,7 @@ func C09Corpus(args []string) {
 		b2, _ := hx.Build(p)
 		bpTrace := hx.RunOn(p, b2.Lib.GetKnowledgeBase(hx.KBName, hx.KBVer), mkWorld(), hx.RunOpts{MaxCycle: 6, NoSnapshots: true}, nil)
 		trA := hx.RunOn(p, insts[0], mkWorld(), hx.RunOpts{MaxCycle: 6, NoSnapshots: true}, nil)
-		if strings.Join(trA.Events, " ") != strings.Join(bpTrace.Events, " ") || trA.FinalDump != bpTrace.FinalDump {
+		if hx.Evs(trA.Events) != hx.Evs(bpTrace.Events) || trA.FinalDump != bpTrace.FinalDump {
 			report("C09:instance-behaves-differently-from-blueprint", fmt.Sprintf("instance: %v\nblueprint: %v\n  grl: %s", trA.Events, bpTrace.Events, p.Text), id)
 		}
 		// pointer graphs after A has executed (memo values, flags set)
@@ -512,7 +522,7 @@ func C09Corpus(args []string) {
 			report("C09:operation-on-instance-changes-other-instance", "state key of instance B changed after execute/retract/remove on instance A\n  grl: "+p.Text, id)
 		}
 		trB := hx.RunOn(p, insts[1], mkWorld(), hx.RunOpts{MaxCycle: 6, NoSnapshots: true}, nil)
-		if strings.Join(trB.Events, " ") != strings.Join(bpTrace.Events, " ") {
+		if hx.Evs(trB.Events) != hx.Evs(bpTrace.Events) {
 			report("C09:operation-on-instance-changes-other-instance", fmt.Sprintf("instance B after operations on A: %v, expected %v\n  grl: %s", trB.Events, bpTrace.Events, p.Text), id)
 		}
 		// the library evolves BETWEEN instantiations (instances were created above): a rule is removed from the
@@ -538,21 +548,21 @@ func C09Corpus(args []string) {
 				if err != nil {
 					break
 				}
-				wantEvents = strings.Join(hx.RunOn(rp, rb.Lib.GetKnowledgeBase(hx.KBName, hx.KBVer), mkWorld(), hx.RunOpts{MaxCycle: 6, NoSnapshots: true}, nil).Events, " ")
+				wantEvents = hx.Evs(hx.RunOn(rp, rb.Lib.GetKnowledgeBase(hx.KBName, hx.KBVer), mkWorld(), hx.RunOpts{MaxCycle: 6, NoSnapshots: true}, nil).Events)
 			}
 			k, err := b.Instance()
 			if err != nil {
 				report("C09:instance-creation-fails:library-changed-between-instantiations", fmt.Sprintf("%v (%s)\n  grl: %s", err, what, p.Text), id)
 				break
 			}
-			if got := strings.Join(hx.RunOn(rp, k, mkWorld(), hx.RunOpts{MaxCycle: 6, NoSnapshots: true}, nil).Events, " "); got != wantEvents {
+			if got := hx.Evs(hx.RunOn(rp, k, mkWorld(), hx.RunOpts{MaxCycle: 6, NoSnapshots: true}, nil).Events); got != wantEvents {
 				report("C09:instance-behaves-differently-from-blueprint:library-changed-between-instantiations", fmt.Sprintf("instance created %s: %s\n  the same rules built fresh: %s\n  grl: %s", what, got, wantEvents, p.Text), id)
 			}
 			mu.Lock()
 			nBehav++
 			mu.Unlock()
 		}
-		if got := strings.Join(hx.RunOn(p, insts[2], mkWorld(), hx.RunOpts{MaxCycle: 6, NoSnapshots: true}, nil).Events, " "); got != strings.Join(bpTrace.Events, " ") {
+		if got := hx.Evs(hx.RunOn(p, insts[2], mkWorld(), hx.RunOpts{MaxCycle: 6, NoSnapshots: true}, nil).Events); got != hx.Evs(bpTrace.Events) {
 			report("C09:library-change-affects-existing-instance", fmt.Sprintf("instance C (created before the library changed): %s, expected %v\n  grl: %s", got, bpTrace.Events, p.Text), id)
 		}
 		if pi%60 == 0 {
